@@ -384,6 +384,9 @@ class Interp(object):
             return Val(0, INF)
         if fn == "divmod" and len(args) == 2 and isinstance(args[0], Val) and isinstance(args[1], Val):
             a, b = args
+            if not a.base and not b.base and a.lo == a.hi and b.lo == b.hi and b.lo != 0 and a.lo not in (INF, -INF):
+                q, r = divmod(a.lo, b.lo)
+                return (const(q), const(r))
             if not a.base and not b.base and b.lo > 0 and b.hi != INF:
                 if b.lo == b.hi:
                     k = b.lo
